@@ -36,7 +36,7 @@ class Supertrend(Indicator):
         long = None
         short = None
 
-        if self.reading(f"{self.name}_atr"):
+        if self.reading(f"{self.name}_atr") is not None:
             mid_atr = self.multiplier * self.reading(f"{self.name}_atr")
 
             upper = self.reading(f"{self.name}_HL") + mid_atr
